@@ -39,6 +39,7 @@ func features() sqlgen.Features {
 	f.QuotedOddNames, f.QuotedDotName, f.QuotedDigitsName = true, true, true
 	f.Corners = true
 	f.ReturningAlias = true
+	f.IntersectPrecedence = hx.Allowed("c03.intersect_precedence")
 	return f
 }
 
